@@ -415,6 +415,7 @@ func runC12(c *Ctx) {
 	}
 
 	ruleW6(c, "W6")
+	ruleW4b(c, "W4")
 
 	// ---- W5 -------------------------------------------------------------------
 	before := len(r.obligs)
@@ -428,4 +429,55 @@ func runC12(c *Ctx) {
 		}
 	}
 	r.obligs = kept
+}
+
+// ruleW4b: every Chmod in the module sets the permission bits of a FileInfo as
+// they are — the value of a Mode() call (possibly handed down through a
+// parameter), never a mask or an arithmetic variation of it. The edited file
+// must come back with the bits it had; a second Chmod with a narrowed mode
+// after the first undoes what W4 establishes.
+func ruleW4b(c *Ctx, rule string) {
+	r := c.R
+	n := 0
+	var plain func(v ssa.Value, d int) bool
+	plain = func(v ssa.Value, d int) bool {
+		if d > 4 {
+			return false
+		}
+		switch x := v.(type) {
+		case *ssa.Call:
+			return x.Call.IsInvoke() && x.Call.Method.Name() == "Mode"
+		case *ssa.Parameter:
+			fn := x.Parent()
+			return callersEstablish(fn, func(call *ssa.CallCommon, at *ssa.BasicBlock) bool {
+				a := argOf(call, fn, x)
+				return a != nil && plain(a, d+1)
+			})
+		}
+		return false
+	}
+	for _, fn := range c.moduleFuncs() {
+		seen := 0
+		eachInstr(fn, func(ins ssa.Instruction) {
+			cc := callCommon(ins)
+			if cc == nil {
+				return
+			}
+			name := calleeName(cc)
+			if name != "os.Chmod" && name != "(*os.File).Chmod" {
+				return
+			}
+			n++
+			seen++
+			key := fmt.Sprintf("%s/chmod-mode#%d", funcKey(fn), seen)
+			if plain(cc.Args[len(cc.Args)-1], 0) {
+				r.Discharge(rule, key, c.P.pos(ins.Pos()), "the mode is the value of a FileInfo's Mode(), unmodified")
+			} else {
+				r.Finding(rule, key, c.P.pos(ins.Pos()), "Chmod with a computed mode ("+exprOfValue(cc.Args[len(cc.Args)-1])+"): the file does not come back with exactly the permission bits it had")
+			}
+		})
+	}
+	if n == 0 {
+		r.Fatal("anchor moved: no Chmod call in the module")
+	}
 }
